@@ -11,7 +11,8 @@ _BR_CACHE = {}
 def make(p):
     from menelaus.concept_drift import LinearFourRates
     return LinearFourRates(time_decay_factor=p["eta"], warning_level=p["wl"], detect_level=p["dl"], burn_in=p["burn"],
-                           num_mc=p["num_mc"], subsample=p["sub"], rates_tracked=list(p["tracked"]), round_val=p["rv"])
+                           num_mc=p["num_mc"], subsample=p["sub"], rates_tracked=list(p["tracked"]), round_val=p["rv"],
+                           parallelize=bool(p.get("par", False)))
 
 
 def bracket(est_rate, denom, eta, level, n_impl, upper, seed, B=20000):
